@@ -109,6 +109,63 @@ Definition match_pattern_pinned_with (lw : str -> str) (rsv : str -> bool) (s : 
 
 (* ------------------------------------------------------------------ matchPattern, repaired (coq/C12/fix.patch)
 
+   The repair that keeps the pinned test suite green: the name is lower-cased once and only the lower-cased
+   string is sliced (no panic, no misaligned offsets), the keyword lookup is done on the lower-cased name.
+   The end of the name stays unanchored, because the pinned test d2ir TestCompile/patterns/suffix (and its golden
+   file) requires `*l` to match `jingle`.
+
+   s = strings.ToLower(s)
+   for i := 0; i < len(pattern); i++ {
+     if pattern[i] == "*" {
+       if i != len(pattern)-1 {
+         next := strings.ToLower(pattern[i+1])
+         j := strings.Index(s, next)
+         if j == -1 { return false }
+         s = s[j+len(next):]
+         i++
+       }
+     } else {
+       part := strings.ToLower(pattern[i])
+       if !strings.HasPrefix(s, part) { return false }
+       s = s[len(part):]
+     }
+   }
+   return true                                                                                    *)
+Fixpoint mpl_loop (lw : str -> str) (s : str) (pat : list str) : res bool :=
+  match pat with
+  | [] => Ok true
+  | p :: rest =>
+      if is_star p then
+        match rest with
+        | [] => Ok true
+        | nxt :: rest' =>
+            match index s (lw nxt) with
+            | None => Ok false
+            | Some j =>
+                match slice_from s (j + length (lw nxt)) with
+                | Crash => Crash
+                | Ok s' => mpl_loop lw s' rest'
+                end
+            end
+        end
+      else if has_prefix s (lw p) then
+        match slice_from s (length (lw p)) with
+        | Crash => Crash
+        | Ok s' => mpl_loop lw s' rest
+        end
+      else Ok false
+  end.
+
+Definition match_pattern_fixed_with (lw : str -> str) (rsv : str -> bool) (s : str) (pat : list str) : res bool :=
+  match pat with
+  | [] => Ok true
+  | _ => if rsv s then Ok false else mpl_loop lw (lw s) pat
+  end.
+
+(* ------------------------------------------------------------------ matchPattern, anchored (the specification's
+   algorithm; coq/C12/fix_anchor.patch = fix.patch + the end of the name is anchored; it changes the pinned
+   test patterns/suffix)
+
    s = strings.ToLower(s)
    for i := 0; i < len(pattern); i++ {
      if pattern[i] == "*" {
@@ -126,7 +183,7 @@ Definition match_pattern_pinned_with (lw : str -> str) (rsv : str -> bool) (s : 
      }
    }
    return s == ""                                                                                 *)
-Fixpoint mpf_loop (lw : str -> str) (s : str) (pat : list str) : res bool :=
+Fixpoint mpa_loop (lw : str -> str) (s : str) (pat : list str) : res bool :=
   match pat with
   | [] => Ok (match s with [] => true | _ => false end)
   | p :: rest =>
@@ -142,7 +199,7 @@ Fixpoint mpf_loop (lw : str -> str) (s : str) (pat : list str) : res bool :=
                 | Some j =>
                     match slice_from s (j + length (lw nxt)) with
                     | Crash => Crash
-                    | Ok s' => mpf_loop lw s' rest'
+                    | Ok s' => mpa_loop lw s' rest'
                     end
                 end
             end
@@ -150,15 +207,15 @@ Fixpoint mpf_loop (lw : str -> str) (s : str) (pat : list str) : res bool :=
       else if has_prefix s (lw p) then
         match slice_from s (length (lw p)) with
         | Crash => Crash
-        | Ok s' => mpf_loop lw s' rest
+        | Ok s' => mpa_loop lw s' rest
         end
       else Ok false
   end.
 
-Definition match_pattern_fixed_with (lw : str -> str) (rsv : str -> bool) (s : str) (pat : list str) : res bool :=
+Definition match_pattern_anchored_with (lw : str -> str) (rsv : str -> bool) (s : str) (pat : list str) : res bool :=
   match pat with
   | [] => Ok true
-  | _ => if rsv s then Ok false else mpf_loop lw (lw s) pat
+  | _ => if rsv s then Ok false else mpa_loop lw (lw s) pat
   end.
 
 (* ------------------------------------------------------------------ specification
@@ -293,14 +350,13 @@ Definition reserved_ci (s : str) : bool := go_reserved (go_lower s).
 
 Definition match_pattern_pinned := match_pattern_pinned_with go_lower go_reserved.
 Definition match_pattern_fixed := match_pattern_fixed_with go_lower reserved_ci.
+Definition match_pattern_anchored := match_pattern_anchored_with go_lower reserved_ci.
 Definition glob_matches := glob_matches_with go_lower reserved_ci.
 
 (* The function the check compares with d2ir.matchPattern.  Switch to match_pattern_fixed when
-   coq/C12/fix.patch lands (theorem C12_match_pattern_spec is about the repaired function). *)
+   coq/C12/fix.patch lands (C12_match_pattern_fixed_* are about it), to match_pattern_anchored when
+   coq/C12/fix_anchor.patch lands (C12_match_pattern_spec). *)
 Definition match_pattern := match_pattern_pinned.
-
-(* the rune-level reading of the specification: strings as lists of code points, pointwise ToLower *)
-Definition glob_matches_runes := glob_matches_with (map lower_rune) go_reserved.
 
 Definition ascii_lower (b : N) : N := if in_rng 65 90 b then b + 32 else b.
 Definition is_ascii (s : str) : bool := forallb (fun b => b <? 128) s.
